@@ -177,15 +177,19 @@ theorem evalRT_filterT :
     · exact ⟨rfl, by simp only [HasTyR]; exact h⟩
   | .map kvs, t, h => by
     simp only [HasTyR] at h
-    obtain ⟨ha, hm, hk⟩ := h
-    have c1 : (t.arrDim == 0 && t.mapDim == 0) = false := by simp [ha, hm]
-    simp only [filterT, c1, Bool.false_eq_true, ↓reduceIte]
-    split
-    · have := evalRT_filterTFields kvs _ hk
-      have c2 : (t.arrDim == 0 && t.mapDim != 0) = true := by simp [ha, hm]
-      simp only [evalRT, c2, if_true, this.1, HasTyR]
-      exact ⟨trivial, ha, hm, this.2⟩
-    · exact ⟨rfl, by simp only [HasTyR]; exact ⟨ha, hm, hk⟩⟩
+    rcases h with ⟨ha, hm, hk⟩ | ⟨ha, hm, hl, hj⟩
+    · have c1 : (t.arrDim == 0 && t.mapDim == 0) = false := by simp [ha, hm]
+      simp only [filterT, c1, Bool.false_eq_true, ↓reduceIte]
+      split
+      · have := evalRT_filterTFields kvs _ hk
+        have c2 : (t.arrDim == 0 && t.mapDim != 0) = true := by simp [ha, hm]
+        simp only [evalRT, c2, if_true, this.1, HasTyR]
+        exact ⟨trivial, Or.inl ⟨ha, hm, this.2⟩⟩
+      · exact ⟨rfl, by simp only [HasTyR]; exact Or.inl ⟨ha, hm, hk⟩⟩
+    · have c1 : (t.arrDim == 0 && t.mapDim == 0) = true := by simp [ha, hm]
+      have e' : filterT st t (.map kvs) = .map kvs := by simp [filterT, c1, hl]
+      rw [e']
+      exact ⟨rfl, by simp only [HasTyR]; exact Or.inr ⟨ha, hm, hl, hj⟩⟩
   | .struct kvs, t, h => by
     simp only [HasTyR] at h
     obtain ⟨ha, hm, ps, hl, hmem, hall⟩ := h
@@ -433,6 +437,30 @@ theorem noSplitOf_pushForkFields (c' c : String) (ix : Idx) :
     exact ⟨noSplitOf_pushFork c' c ix e h.1, noSplitOf_pushForkFields c' c ix es h.2⟩
 end
 
+mutual
+theorem pushFork_json (c : String) (ix : Idx) : ∀ e : RExp, jsonR e = true → pushFork c ix e = e
+  | .lit _, _ => by simp [pushFork]
+  | .arr xs, h => by simp only [jsonR] at h; simp only [pushFork, pushFork_jsonList c ix xs h]
+  | .map kvs, h => by simp only [jsonR] at h; simp only [pushFork, pushFork_jsonFields c ix kvs h]
+  | .struct _, h => by simp [jsonR] at h
+  | .ref _ _ _, h => by simp [jsonR] at h
+  | .split _ _ _, h => by simp [jsonR] at h
+  | .merge _ _ _, h => by simp [jsonR] at h
+  | .disabled _ _, h => by simp [jsonR] at h
+  | .fork _ _ _, h => by simp [jsonR] at h
+theorem pushFork_jsonList (c : String) (ix : Idx) : ∀ es : List RExp, jsonRList es = true → pushForkList c ix es = es
+  | [], _ => rfl
+  | e :: es, h => by
+    simp only [jsonRList, Bool.and_eq_true] at h
+    simp only [pushForkList, pushFork_json c ix e h.1, pushFork_jsonList c ix es h.2]
+theorem pushFork_jsonFields (c : String) (ix : Idx) :
+    ∀ es : List (String × RExp), jsonRFields es = true → pushForkFields c ix es = es
+  | [], _ => rfl
+  | (k, e) :: es, h => by
+    simp only [jsonRFields, Bool.and_eq_true] at h
+    simp only [pushForkFields, pushFork_json c ix e h.1, pushFork_jsonFields c ix es h.2]
+end
+
 section push
 variable (st : StructTable) (hst : StructsOk st) (F : Nat) (ρ : Store) (hρ : StoreExt ρ) (c : String) (k : Nat)
 include hst hρ
@@ -452,11 +480,15 @@ theorem pushFork_evalRT :
   | .map kvs, t, f, h, hnm => by
     simp only [HasTyR] at h
     simp only [noMergeOf] at hnm
-    obtain ⟨ha, hm, hk⟩ := h
-    have ih := pushFork_evalRTFields kvs _ f hk hnm
-    have c2 : (t.arrDim == 0 && t.mapDim != 0) = true := by simp [ha, hm]
-    simp only [pushFork, evalRT, c2, if_true, ih.1, HasTyR]
-    exact ⟨trivial, ha, hm, ih.2⟩
+    rcases h with ⟨ha, hm, hk⟩ | ⟨ha, hm, hl, hj⟩
+    · have ih := pushFork_evalRTFields kvs _ f hk hnm
+      have c2 : (t.arrDim == 0 && t.mapDim != 0) = true := by simp [ha, hm]
+      simp only [pushFork, evalRT, c2, if_true, ih.1, HasTyR]
+      exact ⟨trivial, Or.inl ⟨ha, hm, ih.2⟩⟩
+    · -- a reference-free literal is not changed by the specialisation
+      have hj' : jsonR (.map kvs) = true := by simpa [jsonR] using hj
+      rw [pushFork_json c (.i k) (.map kvs) hj']
+      exact ⟨evalRT_json_eq st F ρ _ t t f _ hj' hm hl hm hl, by simp only [HasTyR]; exact Or.inr ⟨ha, hm, hl, hj⟩⟩
   | .struct kvs, t, f, h, hnm => by
     simp only [HasTyR] at h
     simp only [noMergeOf] at hnm
